@@ -1,6 +1,6 @@
 """C12 — idle metrics are dropped exactly when they were idle longer than the timeout."""
 from facts import Sym, path_is, strip_generics, strip_sym, sym_arg, sym_calls, sym_is_call, sym_str, sym_through, sym_walk
-from props.common import arg_syms, atomic_ops, bool_switches, callee_method_name, calls_to, crate_stats, gates, in_cycle, kind_consistent, need, nonforeign_calls, one_method, orderings_in, siblings_isomorphic
+from props.common import arg_syms, atomic_ops, bool_switches, callee_method_name, calls_to, crate_stats, gates, in_cycle, kind_consistent, need, nonforeign_calls, one_method, orderings_in, siblings_isomorphic, through_getters
 
 KEEP = [  # private helpers the rules name (kept as functions); every other non-exported, non-trait function is spliced into its callers
     "AtomicBucketInstant::new", "Block::new", "CompositeKeyName::new", "Generational::new",
@@ -78,7 +78,7 @@ def run(ctx):
             g = gates(b, dc.bb)
             got = {k: False for k in conds}
             for d, lab in g:
-                d = strip_sym(d)
+                d = strip_sym(through_getters(u, d))
                 if lab == "Some" and d[0] == "field" and d[2] == "idle_timeout":
                     got["timeout set"] = True
                 if lab is True and sym_is_call(d, "MetricKindMask::matches") and strip_sym(d[2][0])[0] == "field" and strip_sym(d[2][0])[2] == "mask" and is_param(d[2][1], 4):
